@@ -2562,6 +2562,10 @@ fn a6_replay(idx: &[u64]) -> Vec<V3> {
 enum SK {
     Prefix,
     AsPath,
+    Neighbor,
+    Community,
+    ExtCommunity,
+    LargeCommunity,
 }
 
 #[derive(Clone, Debug)]
@@ -2652,6 +2656,10 @@ fn crud_set_cfg(k: SK, name: usize, content: usize) -> DefinedSetConfig {
             DefinedSetConfig::Prefix { name, prefixes }
         }
         SK::AsPath => DefinedSetConfig::AsPath { name, patterns: vec![if content == 0 { "_1_".to_string() } else { "^2_".to_string() }] },
+        SK::Neighbor => DefinedSetConfig::Neighbor { name, neighbors: vec![if content == 0 { "10.0.0.1/32".to_string() } else { "10.0.0.2/32".to_string() }] },
+        SK::Community => DefinedSetConfig::Community { name, patterns: vec![if content == 0 { "65000:1".to_string() } else { "65000:2".to_string() }] },
+        SK::ExtCommunity => DefinedSetConfig::ExtCommunity { name, patterns: vec![if content == 0 { "rt:65000:1".to_string() } else { "rt:65000:2".to_string() }] },
+        SK::LargeCommunity => DefinedSetConfig::LargeCommunity { name, patterns: vec![if content == 0 { "65000:1:1".to_string() } else { "65000:2:2".to_string() }] },
     }
 }
 
@@ -2906,6 +2914,10 @@ impl CrudModel {
                     0 => (vec![ConditionConfig::PrefixSet("X0".into(), MatchOption::Any)], Some(Disposition::Accept), Actions { local_pref: Some(LocalPrefAction { value: 200 }), ..Default::default() }),
                     1 => (vec![ConditionConfig::PrefixSet("X1".into(), MatchOption::Any)], Some(Disposition::Reject), Actions::default()),
                     2 => (vec![ConditionConfig::AsPathSet("X0".into(), MatchOption::Any)], None, Actions::default()),
+                    4 => (vec![ConditionConfig::NeighborSet("X0".into(), MatchOption::Any)], Some(Disposition::Accept), Actions::default()),
+                    5 => (vec![ConditionConfig::CommunitySet("X0".into(), MatchOption::Any)], Some(Disposition::Accept), Actions::default()),
+                    6 => (vec![ConditionConfig::ExtCommunitySet("X0".into(), MatchOption::Any)], Some(Disposition::Accept), Actions::default()),
+                    7 => (vec![ConditionConfig::LargeCommunitySet("X0".into(), MatchOption::Any)], Some(Disposition::Accept), Actions::default()),
                     _ => (vec![], None, Actions { med: Some(MedAction { action_type: MedActionType::Replace, value: 7 }), ..Default::default() }),
                 };
                 sys.pt.add_statement(&sname(*n), conds, disp, acts)
@@ -3117,7 +3129,26 @@ fn crud_models() -> Vec<CrudModel> {
         find("AsgAdd(Import, 0)"),
         find("PeerAdd(1)"),
     ];
-    vec![CrudModel { name: "crud-empty", prefix: vec![], ops: ops.clone() }, CrudModel { name: "crud-full", prefix, ops }]
+    // the other four kinds of defined set, all under the one name X0 (kind confusion in the in-use
+    // checks), each referenced by its own statement: every add / replace / delete of every kind
+    let mut kops: Vec<CrudOp> = Vec::new();
+    let kinds = [SK::Neighbor, SK::Community, SK::ExtCommunity, SK::LargeCommunity];
+    for k in kinds {
+        kops.push(CrudOp::SetAdd(k, 0, 0));
+    }
+    for (i, _) in kinds.iter().enumerate() {
+        kops.push(CrudOp::StmtAdd(i, 4 + i));
+    }
+    for k in kinds {
+        kops.push(CrudOp::SetReplace(k, 0, 1));
+        kops.push(CrudOp::SetDelAll(k, 0));
+        kops.push(CrudOp::SetDelPart(k, 0, 0));
+        kops.push(CrudOp::SetAdd(k, 0, 1));
+    }
+    for i in 0..kinds.len() {
+        kops.push(CrudOp::StmtDelAll(i));
+    }
+    vec![CrudModel { name: "crud-empty", prefix: vec![], ops: ops.clone() }, CrudModel { name: "crud-full", prefix, ops }, CrudModel { name: "crud-set-kinds", prefix: vec![], ops: kops }]
 }
 
 fn crud_run(rep: &mut Report, thorough: bool) {
